@@ -18,12 +18,16 @@ Safe ∧ Out ∧ Head ∧ sizes) preserved by faults, repairs, both control loop
 under manual control and under ICT-based control with any pattern of reachable devices
 (`isolated_invariant_auto`).
 Well-formedness is the executable `wfB`, printed by the driver for every configuration extracted
-from a real power system.  The second one (`SwitchesAgreeInv`) is stated and NOT proved: it is
-tested on every model / implementation state visited by the check (`switchesAgree`).
+from a real power system.  The second one (`SwitchesAgreeInv`: an open disconnector / breaker never sits
+on a line that is in service) is PROVED as well (`switches_agree_invariant`, `…_auto`), with a third
+inductive invariant (`Lemmas/ControlSwL.lean`) and the additional structural clauses `wfB2` (a
+section that lists one disconnector of a line lists all of them, …), also evaluated on every real
+configuration.
 -/
 import Relsad.Model.Control
 import Relsad.Lemmas.ControlL
 import Relsad.Lemmas.ControlInvL
+import Relsad.Lemmas.ControlSwL
 
 namespace Relsad.C05
 open Relsad.Control
@@ -202,12 +206,38 @@ theorem isolated_invariant_auto (C : Cfg) (hC : wfB C = true) : ∀ s, ReachA C 
     | stepA s dt cm _ _ ih => exact ih.stepA w dt cm
   exact this.isolatedOK
 
+/-- all three inductive invariants hold at every reachable state -/
+theorem reach_triple (C : Cfg) (w : WF C) (w2 : WF2 C) : ∀ s, ReachA C s → Triple C s := by
+  intro s hs
+  induction hs with
+  | init => exact Triple.init w
+  | fail s l rep _ hl _ ih => exact ih.afterFail w l hl rep
+  | step s dt _ _ ih => exact ih.step w w2 dt
+  | stepA s dt cm _ _ ih => exact ih.stepA w w2 dt cm
+
+/-- **C05, second invariant, for all reachable states** (manual and ICT-based increments in any order): the reported
+position of every switch agrees with its line — an open disconnector or breaker never sits on a line in service. -/
+theorem switches_agree_invariant_auto (C : Cfg) (hC : wfB C = true) (hC2 : wfB2 C = true) :
+    ∀ s, ReachA C s → switchesAgree C s = true :=
+  fun s hs => (reach_triple C (WF.of_wfB C hC) (WF2.of_wfB2 C hC2) s hs).sa.switchesAgree
+
+private theorem reach_to_reachA' (C : Cfg) : ∀ s, Reach C s → ReachA C s := by
+  intro s hs
+  induction hs with
+  | init => exact .init
+  | fail s l rep _ hl hf ih => exact .fail s l rep ih hl hf
+  | step s dt _ hdt ih => exact .step s dt ih hdt
+
+theorem switches_agree_invariant (C : Cfg) (hC : wfB C = true) (hC2 : wfB2 C = true) : SwitchesAgreeInv C :=
+  fun s hs => switches_agree_invariant_auto C hC hC2 s (reach_to_reachA' C s hs)
+
 /-- Non-vacuity of `isolated_invariant`: the same feeder is well-formed, and a state reached by a fault and two
 increments satisfies the conclusion. -/
 example : let C : Cfg := { lines := [⟨0, some 0, [], 0⟩, ⟨0, none, [0], 1⟩], disconLine := [1], cbLine := [0],
                            secs := [⟨[0], [.breaker 0, .discon 0]⟩, ⟨[1], [.discon 0]⟩],
                            nets := [⟨0, 0, [0, 1], [0, 1], [], none, none⟩], T := 1 }
-    wfB C = true ∧ isolatedOK C (step C (step C (lineFail C (St.init C) 1 2) 1) 1) = true := by
+    wfB C = true ∧ wfB2 C = true ∧ isolatedOK C (step C (step C (lineFail C (St.init C) 1 2) 1) 1) = true ∧
+    switchesAgree C (step C (step C (lineFail C (St.init C) 1 2) 1) 1) = true := by
   decide +kernel
 
 end Relsad.C05
